@@ -112,10 +112,11 @@ def sigName (tc : TestCase) (i : Nat) : String := hexOfString ((tc.signals[i]?.m
 def dumpInputs (tc : TestCase) (l : List InEntry) : String :=
   "[" ++ ",".intercalate (l.map fun e => sigName tc e.sig ++ "=" ++ showIn e.value ++ "/" ++ (if e.changed then "1" else "0")) ++ "]"
 
-def dumpOutputs (tc : TestCase) (l : List OutResult) : String :=
-  "[" ++ ",".intercalate (l.map fun e => sigName tc e.sig ++ ":" ++ showOut e.output ++ ":" ++ showExp e.expected ++
-      ":" ++ (if e.expected.check e.output then "p" else "f") ++ (if e.expected != .x then "c" else "u") ++
-      (if e.expected.check e.output then "-" else "F")) ++ "]"
+def dumpOutputs (tc : TestCase) (r : DataRow) : String :=
+  let failing := r.failingOutputs
+  "[" ++ ",".intercalate (r.outputs.map fun e => sigName tc e.sig ++ ":" ++ showOut e.output ++ ":" ++ showExp e.expected ++
+      ":" ++ (if e.check then "p" else "f") ++ (if e.isChecked then "c" else "u") ++
+      (if failing.contains e then "F" else "-")) ++ "]"
 
 def sortVars (l : List (String × Int64)) : List (String × Int64) :=
   (l.toArray.qsort (fun a b => a.1 < b.1)).toList
@@ -232,7 +233,7 @@ partial def runItems (ownWo : Bool) (tc : TestCase) (drv : Driver (List DrvResp)
     | .item (.row r) s' d' calls =>
       let acc := calls.foldl (fun a c => a.push (callLine ownWo tc c)) acc
       let acc := acc.push ("item " ++ toString k ++ " row line=" ++ toString r.line ++ " in=" ++ dumpInputs tc r.inputs ++
-        " out=" ++ dumpOutputs tc r.outputs ++ " vars=" ++ dumpVars s'.vars)
+        " out=" ++ dumpOutputs tc r ++ " vars=" ++ dumpVars s'.vars)
       runItems ownWo tc drv cap (k + 1) s' d' acc
 
 partial def runStatic (tc : TestCase) (cap : Nat) (k : Nat) (s : RowIt) (acc : Array String) : Array String :=
